@@ -14,7 +14,7 @@ import vlib
 # --------------------------------------------------------------------------------------------
 # tag -> property ids, per kind of collection (see DESIGN.md section 5)
 # --------------------------------------------------------------------------------------------
-COMMON_TREE = {"WF": ["C02"], "POOL": ["C11"], "GROWTH": ["C11"], "POOLCLR": ["C11", "C12"], "CLEARED": ["C12"],
+COMMON_TREE = {"WF": ["C02"], "POOL": ["C11"], "GROWTH": ["C11"], "POOLCLR": ["C11"], "CLEARED": ["C12"],
                "OUTCOME": ["C10"], "TORN": ["C18"], "TORNWF": ["C18"], "TORNPOOL": ["C18"]}
 TAGMAP = {
     "keytree": dict(COMMON_TREE, RES_PRED=["C01"], EMPTY=["C01"], RES_GET=["C06"], REFINE=["C01", "C06"],
